@@ -2,7 +2,6 @@
 //! the C03 oracle clauses.  Everything here returns findings instead of
 //! writing to the report, so the same code serves the main run, shrinking and
 //! replay.
-use crate::seeds::CodecSpec;
 use bytes::BytesMut;
 use rbgp_verif::common::*;
 use rustybgp_packet::bgp::{self, Attribute, ParsedMessage, ParsedUpdate, PeerCodec};
@@ -84,32 +83,80 @@ fn panic_finding(dec: &str, p: &PanicInfo, buf: &[u8]) -> Finding {
     }
 }
 
-fn fp_parsed(m: &ParsedMessage) -> u64 {
-    let s = match m {
-        ParsedMessage::Open(o) => format!("open {} {} {} {:?}", o.as_number, o.holdtime.seconds(), o.router_id, o.capability),
-        ParsedMessage::Update(ParsedUpdate::EndOfRib(f)) => format!("eor {:?}", f),
-        ParsedMessage::Update(ParsedUpdate::Routes { reach, mp_reach, unreach, mp_unreach, attrs, error_attrs }) => {
-            format!("routes {:?} {:?} {:?} {:?} {:?} {:?}", reach, mp_reach, unreach, mp_unreach, attrs, error_attrs)
+/// FNV-1a over everything written through `fmt::Write` (no allocation).
+struct HashWriter(u64);
+
+impl std::fmt::Write for HashWriter {
+    fn write_str(&mut self, s: &str) -> std::fmt::Result {
+        for b in s.bytes() {
+            self.0 ^= b as u64;
+            self.0 = self.0.wrapping_mul(0x0000_0100_0000_01B3);
         }
-        ParsedMessage::Notification(n) => format!("notification {:?}", n),
-        ParsedMessage::Keepalive => "keepalive".to_string(),
-        ParsedMessage::RouteRefresh { family } => format!("route-refresh {:?}", family),
-    };
-    fnv64(s.as_bytes())
+        Ok(())
+    }
 }
 
-fn fp_message(m: &bgp::Message) -> String {
+/// Under Miri the `Debug` machinery dominates the run time: fingerprint the shape only.
+fn fp_parsed_cheap(m: &ParsedMessage) -> u64 {
+    let n = |e: &Option<bgp::ReachNlri>| e.as_ref().map_or(0, |r| 1 + r.entries.len() as u64);
+    let u = |e: &Option<bgp::UnreachNlri>| e.as_ref().map_or(0, |r| 1 + r.entries.len() as u64);
     match m {
-        bgp::Message::Open(_) => "open".into(),
-        bgp::Message::Update(bgp::Update::Reach { family, entries, nexthop, attr }) => {
-            format!("reach {:?} {} {:?} {}", family, entries.len(), nexthop, attr.len())
+        ParsedMessage::Open(o) => 1 ^ ((o.as_number as u64) << 8) ^ ((o.capability.len() as u64) << 40),
+        ParsedMessage::Update(ParsedUpdate::EndOfRib(_)) => 2,
+        ParsedMessage::Update(ParsedUpdate::Routes { reach, mp_reach, unreach, mp_unreach, attrs, error_attrs }) => {
+            3 ^ (n(reach) << 8) ^ (n(mp_reach) << 16) ^ (u(unreach) << 24) ^ (u(mp_unreach) << 32) ^ ((attrs.len() as u64) << 40) ^ ((error_attrs.len() as u64) << 48)
         }
-        bgp::Message::Update(bgp::Update::Unreach { family, entries }) => format!("unreach {:?} {}", family, entries.len()),
-        bgp::Message::Update(bgp::Update::EndOfRib(f)) => format!("eor {:?}", f),
-        bgp::Message::Notification(_) => "notification".into(),
-        bgp::Message::Keepalive => "keepalive".into(),
-        bgp::Message::RouteRefresh { family } => format!("rr {:?}", family),
+        ParsedMessage::Notification(n) => 4 ^ ((n.notification_code() as u64) << 8) ^ ((n.notification_subcode() as u64) << 16),
+        ParsedMessage::Keepalive => 5,
+        ParsedMessage::RouteRefresh { .. } => 6,
     }
+}
+
+fn fp_parsed(m: &ParsedMessage) -> u64 {
+    use std::fmt::Write;
+    if cfg!(miri) {
+        return fp_parsed_cheap(m);
+    }
+    let mut w = HashWriter(0xcbf2_9ce4_8422_2325);
+    let _ = match m {
+        ParsedMessage::Open(o) => write!(w, "open {} {} {} {:?}", o.as_number, o.holdtime.seconds(), o.router_id, o.capability),
+        ParsedMessage::Update(ParsedUpdate::EndOfRib(f)) => write!(w, "eor {:?}", f),
+        ParsedMessage::Update(ParsedUpdate::Routes { reach, mp_reach, unreach, mp_unreach, attrs, error_attrs }) => {
+            write!(w, "routes {:?} {:?} {:?} {:?} {:?} {:?}", reach, mp_reach, unreach, mp_unreach, attrs, error_attrs)
+        }
+        ParsedMessage::Notification(n) => write!(w, "notification {:?}", n),
+        ParsedMessage::Keepalive => write!(w, "keepalive"),
+        ParsedMessage::RouteRefresh { family } => write!(w, "route-refresh {:?}", family),
+    };
+    w.0
+}
+
+fn fp_message(m: &bgp::Message) -> u64 {
+    use std::fmt::Write;
+    if cfg!(miri) {
+        return match m {
+            bgp::Message::Open(_) => 1,
+            bgp::Message::Update(bgp::Update::Reach { entries, attr, .. }) => 2 ^ ((entries.len() as u64) << 8) ^ ((attr.len() as u64) << 32),
+            bgp::Message::Update(bgp::Update::Unreach { entries, .. }) => 3 ^ ((entries.len() as u64) << 8),
+            bgp::Message::Update(bgp::Update::EndOfRib(_)) => 4,
+            bgp::Message::Notification(_) => 5,
+            bgp::Message::Keepalive => 6,
+            bgp::Message::RouteRefresh { .. } => 7,
+        };
+    }
+    let mut w = HashWriter(0xcbf2_9ce4_8422_2325);
+    let _ = match m {
+        bgp::Message::Open(_) => write!(w, "open"),
+        bgp::Message::Update(bgp::Update::Reach { family, entries, nexthop, attr }) => {
+            write!(w, "reach {:?} {} {:?} {}", family, entries.len(), nexthop, attr.len())
+        }
+        bgp::Message::Update(bgp::Update::Unreach { family, entries }) => write!(w, "unreach {:?} {}", family, entries.len()),
+        bgp::Message::Update(bgp::Update::EndOfRib(f)) => write!(w, "eor {:?}", f),
+        bgp::Message::Notification(_) => write!(w, "notification"),
+        bgp::Message::Keepalive => write!(w, "keepalive"),
+        bgp::Message::RouteRefresh { family } => write!(w, "rr {:?}", family),
+    };
+    w.0
 }
 
 /// Attribute value decoders that the daemon applies to received bytes later
@@ -359,7 +406,7 @@ fn run_stream<S: Side>(side: &mut S, input: &[u8], cuts: &[usize]) -> Trace {
 }
 
 struct BgpSide<'a> {
-    spec: &'a CodecSpec,
+    max_len: usize,
     codec: &'a mut PeerCodec,
     is_ebgp: bool,
 }
@@ -372,7 +419,7 @@ impl Side for BgpSide<'_> {
         19
     }
     fn max(&self) -> usize {
-        self.spec.max_len()
+        self.max_len
     }
     fn len_field(&self, b: &[u8]) -> usize {
         ((b[16] as usize) << 8) | b[17] as usize
@@ -399,7 +446,7 @@ impl Side for BgpSide<'_> {
                         detail: format!("{:?}", n),
                     });
                 }
-                if 21 + n.notification_data().len() > self.spec.max_len() {
+                if 21 + n.notification_data().len() > self.max_len {
                     tr.counters.push("unjudged:notification-longer-than-max-message");
                 }
                 Step::Error(format!("{:?}", n))
@@ -421,8 +468,11 @@ impl Side for BgpSide<'_> {
                 match guard(move || bgp::validate_message(msg, is_ebgp).map(|it| it.collect::<Vec<_>>())) {
                     Err(p) => Step::Panic(p, "validate_message"),
                     Ok(Ok(ms)) => {
-                        let s: Vec<String> = ms.iter().map(fp_message).collect();
-                        tr.msgs.push(fnv64(s.join("|").as_bytes()));
+                        let mut h = 0u64;
+                        for m in &ms {
+                            h = h.rotate_left(7) ^ fp_message(m);
+                        }
+                        tr.msgs.push(h);
                         Step::Msg
                     }
                     Ok(Err(n)) => {
@@ -439,8 +489,8 @@ impl Side for BgpSide<'_> {
 /// The rx loop of `PeerSession::run_select`: append what the socket delivered
 /// to `rxbuf`, then `try_parse` until it asks for more; every message goes
 /// through `validate_message`; an error ends the session.
-pub fn run_bgp(spec: &CodecSpec, codec: &mut PeerCodec, input: &[u8], cuts: &[usize], is_ebgp: bool) -> Trace {
-    let mut side = BgpSide { spec, codec, is_ebgp };
+pub fn run_bgp(max_len: usize, codec: &mut PeerCodec, input: &[u8], cuts: &[usize], is_ebgp: bool) -> Trace {
+    let mut side = BgpSide { max_len, codec, is_ebgp };
     run_stream(&mut side, input, cuts)
 }
 
